@@ -69,7 +69,7 @@ pub fn place_fault(rng: &mut Rng, traj: &[StepPoint]) -> (FaultKind, u64, AllocC
     let d = rng.below(3); // 0,1,2 -> -1,0,+1
     match rng.below(10) {
         0..=2 => (FaultKind::None, 0, ac),
-        3..=4 => (FaultKind::Budget, (s.cost + d).saturating_sub(1).max(1), ac),
+        3..=4 => (FaultKind::Budget, s.cost.saturating_add(d).saturating_sub(1).max(1), ac),
         5..=7 => {
             let peak = traj.iter().map(|p| p.heap).max().unwrap_or(1);
             let l = if rng.chance(1, 4) { peak.saturating_sub(1) } else { (s.heap + d).saturating_sub(1) };
